@@ -131,7 +131,31 @@ def genUniqGroups (aIds : List String) (b : List Group) : Option (List Group) :=
 
 /-! ### Sorting and comparing rules -/
 
-def sortAddrs (l : List String) : List String := l.mergeSort fun a b => decide (a ≤ b)
+/-- Stable insertion sort (kernel-reducible, so that examples can be decided). -/
+def insertBy {α : Type} (le : α → α → Bool) (x : α) : List α → List α
+  | [] => [x]
+  | y :: ys => if le x y then x :: y :: ys else y :: insertBy le x ys
+
+def isort {α : Type} (le : α → α → Bool) : List α → List α
+  | [] => []
+  | x :: xs => insertBy le x (isort le xs)
+
+theorem insertBy_perm {α : Type} (le : α → α → Bool) (x : α) (l : List α) : (insertBy le x l).Perm (x :: l) := by
+  induction l with
+  | nil => exact List.Perm.refl _
+  | cons y ys ih =>
+    simp only [insertBy]
+    by_cases h : le x y = true
+    · simp [h]
+    · simp only [h, Bool.false_eq_true, if_false]
+      exact (List.Perm.cons y ih).trans (List.Perm.swap x y ys)
+
+theorem isort_perm {α : Type} (le : α → α → Bool) (l : List α) : (isort le l).Perm l := by
+  induction l with
+  | nil => exact List.Perm.refl _
+  | cons x xs ih => exact (insertBy_perm le x _).trans (List.Perm.cons x ih)
+
+def sortAddrs (l : List String) : List String := isort (fun a b => decide (a ≤ b)) l
 def sortGroups (gs : List Group) : List Group := gs.map fun g => { g with addrs := sortAddrs g.addrs }
 
 def firstAddr (g : Group) : String := g.addrs.headD ""
@@ -178,7 +202,7 @@ def cmpRules (gm : String → Option Group) (a b : Rule) : Ordering :=
 
 /-- `sortRules` (stable; Go's `slices.SortFunc` is an insertion sort up to 12 elements). -/
 def sortRules (gm : String → Option Group) (l : List Rule) : List Rule :=
-  l.mergeSort fun a b => cmpRules gm a b != .gt
+  isort (fun a b => cmpRules gm a b != .gt) l
 
 /-- `rulesPair.Equal`: any two known groups count as equal. -/
 def ruleEqual (gma gmb : String → Option Group) (ra rb : Rule) : Bool :=
@@ -222,7 +246,7 @@ def Ctx.gmb (ctx : Ctx) (p : String) : Option Group :=
 /-- `findGroupOnDevice`: the first un-needed device group, in ascending id order, whose address
 list is identical. -/
 def findOnDevice (aGroups : List Group) (needed : List String) (gb : Group) : Option Group :=
-  (aGroups.mergeSort fun a b => decide (a.id ≤ b.id)).find? fun ga =>
+  (isort (fun a b => decide (a.id ≤ b.id)) aGroups).find? fun ga =>
     !needed.contains ga.id && ga.addrs == gb.addrs
 
 def putGroupCall (gb : Group) : Call := .putGroup gb.id gb.exprId gb.rtype gb.addrs
